@@ -1,8 +1,329 @@
-(** C08 — bounding boxes are tight and extrema are complete. Statements only. *)
-From Coq Require Import ZArith Reals List Bool.
-From KV Require Import Scalar RInst Geom Curves Rect Path Solvers Extrema C08_proofs.
+(** C08 — Bounding boxes are tight and extrema are complete.
+    Real instance of model/Extrema.v (kurbo's code run in exact arithmetic). Statements only.
+
+    KNOWN FINDING C08-tiny-derivative: when the leading coefficient of a coordinate's derivative is
+    sub-normal (coordinate differences below about 1e-293) the binary64 code departs from the
+    real-number run these theorems are about; see [C08_pinned_extrema_scale_refuted].
+
+    Two models of [CubicBez::extrema] are tied to the compiled crate by the bit-exact
+    correspondence check on every run: the literal one, [cubic_extrema], and [cubic_extrema_lin],
+    in which [solve_quadratic]'s "treat as linear equation" block is taken exactly when the leading
+    coefficient of the derivative is zero — which is what binary64 does ([c2.recip()] is infinite,
+    the scaled coefficients are not finite).  The real instance cannot see that block ([x/0 = 0] is
+    finite), so the full-strength statements are about the [_lin] variant, and the literal model
+    gets them under the guard [cubic_lead_ok] (leading coefficient non-zero, or derivative constant,
+    in each coordinate), under which both coincide.  Vocabulary: spec/ExtremaSpec.v. *)
+From Coq Require Import ZArith Reals List Bool Lra Sorting.Sorted Floats.
+From KV Require Import Scalar RInst F64 Geom Curves Rect Path Solvers Extrema ExtremaSpec.
+From KV Require Import C08_base C08_proofs C08_bbox.
 Import ListNotations.
 Local Open Scope R_scope.
 
-Theorem C08_line_extrema : forall l : Line R, line_extrema l = [].
-Proof. exact line_extrema_nil. Qed.
+(** ** Extrema *)
+
+(** QuadBez::extrema: only interior zeros of x' or y'; every interior sign change (indeed every
+    interior zero of a velocity that is not identically zero); ascending; at most four. *)
+Theorem C08_quad_extrema_spec : forall q : QuadBez R, extrema_spec (SegQuad q) (quad_extrema q).
+Proof. exact quad_extrema_spec_lemma. Qed.
+
+Theorem C08_quad_extrema_length : forall q : QuadBez R, (length (quad_extrema q) <= 2)%nat.
+Proof. exact quad_extrema_length. Qed.
+
+(** CubicBez::extrema, through the specification of [solve_quadratic] (C15) and the sort. *)
+Theorem C08_cubic_extrema_spec : forall c : CubicBez R, extrema_spec (SegCubic c) (cubic_extrema_lin c).
+Proof. exact cubic_extrema_lin_spec. Qed.
+
+(** the literal model: the same list under the guard, hence the same specification *)
+Theorem C08_cubic_extrema_agree : forall c : CubicBez R,
+  cubic_lead_ok c -> cubic_extrema c = cubic_extrema_lin c.
+Proof. exact cubic_extrema_eq_lin. Qed.
+
+Theorem C08_cubic_extrema_spec_guarded : forall c : CubicBez R,
+  cubic_lead_ok c -> extrema_spec (SegCubic c) (cubic_extrema c).
+Proof. exact (fun c => seg_extrema_spec_guarded (SegCubic c)). Qed.
+
+(** the literal model without any guard: never reports anything but an interior zero of x' or y',
+    ascending, at most four entries (the [ArrayVec<f64, 4>] cannot overflow) *)
+Theorem C08_cubic_extrema_sound : forall c : CubicBez R,
+  (forall t, In t (cubic_extrema c) -> 0 < t < 1 /\ (seg_vx (SegCubic c) t = 0 \/ seg_vy (SegCubic c) t = 0)) /\
+  StronglySorted Rle (cubic_extrema c) /\ (length (cubic_extrema c) <= 4)%nat.
+Proof. exact cubic_extrema_sound. Qed.
+
+(** for every scalar: when the scaled coefficients are not finite, [one_coord] filters the root of
+    the linear equation (the block [cubic_extrema_lin] makes explicit) *)
+Theorem C08_one_coord_linear_block : forall (T : Type) (S : Scalar T) (d0 d1 d2 : T),
+  (fis_finite (fmul d0 (fdiv f1 (oc_a d0 d1 d2))) &&
+   fis_finite (fmul (oc_b d0 d1) (fdiv f1 (oc_a d0 d1 d2))))%bool = false ->
+  cubic_one_coord d0 d1 d2 = extrema_filter (quad_linear d0 (oc_b d0 d1)).
+Proof. exact one_coord_linear_generic. Qed.
+
+(** ** Known finding C08-tiny-derivative (binary64): extrema depend on the magnitude of the polygon.
+    [one_coord], run on binary64 on the derivative coefficients (3, -5, 3) * 2^-1060
+    (x' = 48 (t - 1/4)(t - 3/4) * 2^-1060), reports the single parameter 0.1875 — where x' does
+    not vanish — because [solve_quadratic] cannot form the reciprocal of the sub-normal leading
+    coefficient and solves the linear equation instead; on the same coefficients times 2^600
+    (an exact scaling that moves no root) it reports 0.25 and 0.75.  So for derivatives whose
+    leading coefficient is sub-normal the compiled code departs from the real-number run the
+    theorems above are about.  [cubic_one_coord_lifted] (proposed_fixes/C08-tiny-derivative.diff,
+    not applied) reports 0.25 and 0.75 for both; at the real instance it reports only interior
+    zeros of the same derivative ([C08_lifted_one_coord_sound]). *)
+Theorem C08_pinned_extrema_scale_refuted :
+  exists d0 d1 d2 : float,
+    let s := 0x1p+600%float in
+    @cubic_one_coord float F64 d0 d1 d2 = [0x1.8p-3%float] /\
+    @cubic_one_coord float F64 (d0 * s)%float (d1 * s)%float (d2 * s)%float = [0x1p-2%float; 0x1.8p-1%float] /\
+    @cubic_one_coord_lifted float F64 d0 d1 d2 = [0x1p-2%float; 0x1.8p-1%float] /\
+    @cubic_one_coord_lifted float F64 (d0 * s)%float (d1 * s)%float (d2 * s)%float = [0x1p-2%float; 0x1.8p-1%float].
+Proof.
+  exists 0x1.8p-1059%float, (-0x1.4p-1058)%float, 0x1.8p-1059%float.
+  vm_compute. repeat split; reflexivity.
+Qed.
+
+Theorem C08_lifted_one_coord_sound : forall d0 d1 d2 t : R,
+  In t (cubic_one_coord_lifted d0 d1 d2) ->
+  0 < t < 1 /\ poly2 d0 (oc_b d0 d1) (oc_a d0 d1 d2) t = 0.
+Proof. exact one_coord_lifted_sound. Qed.
+
+(** lines report nothing (their velocity is constant) and the PathSeg dispatch *)
+Theorem C08_seg_extrema_spec : forall s : PathSeg R, extrema_spec s (seg_extrema_lin s).
+Proof. exact seg_extrema_lin_spec. Qed.
+
+Theorem C08_seg_extrema_spec_guarded : forall s : PathSeg R,
+  seg_lead_ok s -> extrema_spec s (seg_extrema s).
+Proof. exact seg_extrema_spec_guarded. Qed.
+
+Theorem C08_seg_extrema_sound : forall s : PathSeg R,
+  (forall t, In t (seg_extrema s) -> 0 < t < 1 /\ (seg_vx s t = 0 \/ seg_vy s t = 0)) /\
+  StronglySorted Rle (seg_extrema s) /\ (length (seg_extrema s) <= 4)%nat.
+Proof. exact seg_extrema_sound. Qed.
+
+(** ** extrema_ranges *)
+
+(** structure, for every scalar: the ranges pair each break point of 0 :: extrema with the next
+    one of extrema ++ [1]; there is one more range than extrema *)
+Theorem C08_extrema_ranges_structure : forall (T : Type) (S : Scalar T) (ts : list T),
+  extrema_ranges ts = combine (f0 :: ts) (ts ++ [f1]) /\
+  length (extrema_ranges ts) = Datatypes.S (length ts).
+Proof. intros. split; [apply ranges_from_combine|apply ranges_from_length]. Qed.
+
+(** every range lies in [0,1], is well-formed, ends at break points, and both coordinates are
+    monotone on it (Simpson's rule is exact for cubics, so a sign-constant velocity suffices) *)
+Theorem C08_ranges_monotone : forall (s : PathSeg R) (a b : R),
+  In (a, b) (extrema_ranges (seg_extrema_lin s)) ->
+  0 <= a /\ a <= b /\ b <= 1 /\
+  (a = 0 \/ In a (seg_extrema_lin s)) /\ (b = 1 \/ In b (seg_extrema_lin s)) /\
+  mono_on (seg_x s) a b /\ mono_on (seg_y s) a b.
+Proof. exact (fun s a b => ranges_monotone_of_spec s _ a b (seg_extrema_lin_spec s)). Qed.
+
+Theorem C08_ranges_monotone_guarded : forall (s : PathSeg R) (a b : R), seg_lead_ok s ->
+  In (a, b) (extrema_ranges (seg_extrema s)) ->
+  0 <= a /\ a <= b /\ b <= 1 /\ mono_on (seg_x s) a b /\ mono_on (seg_y s) a b.
+Proof.
+  exact (fun s a b Hok Hin =>
+    match ranges_monotone_of_spec s _ a b (seg_extrema_spec_guarded s Hok) Hin with
+    | conj A (conj B (conj C (conj _ (conj _ (conj D E))))) => conj A (conj B (conj C (conj D E)))
+    end).
+Qed.
+
+Theorem C08_ranges_count : forall s : PathSeg R, (length (extrema_ranges (seg_extrema s)) <= 5)%nat.
+Proof. exact seg_ranges_count. Qed.
+
+(** the ranges cover [0,1] *)
+Theorem C08_ranges_cover : forall (l : list R) (t : R), 0 <= t <= 1 ->
+  exists a b, In (a, b) (extrema_ranges l) /\ a <= t <= b.
+Proof. exact ranges_cover_unit. Qed.
+
+(** ** Bounding box of a segment *)
+
+(** contains every point of the segment *)
+Theorem C08_bbox_contains_curve : forall (s : PathSeg R) (t : R), 0 <= t <= 1 ->
+  rect_has (seg_bounding_box_lin s) (seg_eval s t).
+Proof. exact seg_bbox_lin_contains. Qed.
+
+Theorem C08_bbox_contains_curve_guarded : forall (s : PathSeg R) (t : R),
+  seg_lead_ok s -> 0 <= t <= 1 -> rect_has (seg_bounding_box s) (seg_eval s t).
+Proof. exact seg_bbox_contains_guarded. Qed.
+
+(** tight: each of the four sides is touched by the curve (no guard needed for this half) *)
+Theorem C08_bbox_tight : forall s : PathSeg R, touches_all_sides s (seg_bounding_box s).
+Proof. exact seg_bbox_tight. Qed.
+
+Theorem C08_bbox_tight_lin : forall s : PathSeg R, touches_all_sides s (seg_bounding_box_lin s).
+Proof. exact seg_bbox_lin_tight. Qed.
+
+(** hence it is the smallest rectangle containing the curve *)
+Theorem C08_bbox_minimal : forall (s : PathSeg R) (r : Rect R),
+  (forall t, 0 <= t <= 1 -> rect_has r (seg_eval s t)) -> rect_within (seg_bounding_box s) r.
+Proof. exact seg_bbox_minimal. Qed.
+
+(** [Shape::bounding_box] of Line / QuadBez / CubicBez is the same function *)
+Theorem C08_concrete_bounding_box : forall s : PathSeg R,
+  seg_bounding_box s = match s with
+                       | SegLine l => line_bounding_box l
+                       | SegQuad q => quad_bounding_box q
+                       | SegCubic c => cubic_bounding_box c
+                       end.
+Proof. exact concrete_bbox_eq. Qed.
+
+(** convex-hull property: any rectangle containing the control points contains the curve and
+    therefore the bounding box *)
+Theorem C08_hull_contains_curve : forall (s : PathSeg R) (r : Rect R) (t : R), 0 <= t <= 1 ->
+  (forall p, In p (seg_points s) -> rect_has r p) -> rect_has r (seg_eval s t).
+Proof. exact seg_hull. Qed.
+
+Theorem C08_control_box_contains_bbox_seg : forall (s : PathSeg R) (r : Rect R),
+  (forall p, In p (seg_points s) -> rect_has r p) -> rect_within (seg_bounding_box s) r.
+Proof. exact seg_bbox_within_hull. Qed.
+
+(** ** Paths *)
+
+(** [Segments::bounding_box] is the union of the segment boxes in order, the zero rectangle when
+    there are no segments *)
+Theorem C08_path_bbox_union :
+  segs_bounding_box (T:=R) [] = rect_zero /\
+  forall (s : PathSeg R) (l : list (PathSeg R)),
+    segs_bounding_box (s :: l) = fold_left (fun b s' => rect_union b (seg_bounding_box s')) l (seg_bounding_box s).
+Proof. split; [reflexivity|exact (path_box_cons (@seg_bounding_box R RS))]. Qed.
+
+(** it is the least rectangle containing every segment box *)
+Theorem C08_path_bbox_lub : forall segs : list (PathSeg R),
+  (forall s, In s segs -> rect_within (seg_bounding_box s) (segs_bounding_box segs)) /\
+  (segs <> [] ->
+   (exists s, In s segs /\ rx0 (segs_bounding_box segs) = rx0 (seg_bounding_box s)) /\
+   (exists s, In s segs /\ rx1 (segs_bounding_box segs) = rx1 (seg_bounding_box s)) /\
+   (exists s, In s segs /\ ry0 (segs_bounding_box segs) = ry0 (seg_bounding_box s)) /\
+   (exists s, In s segs /\ ry1 (segs_bounding_box segs) = ry1 (seg_bounding_box s))).
+Proof.
+  exact (fun segs => conj (path_box_upper (@seg_bounding_box R RS) segs)
+                          (path_box_least (@seg_bounding_box R RS) segs)).
+Qed.
+
+(** it contains every point of every segment *)
+Theorem C08_path_bbox_contains : forall (segs : list (PathSeg R)) (s : PathSeg R) (t : R),
+  In s segs -> 0 <= t <= 1 -> rect_has (segs_bounding_box_lin segs) (seg_eval s t).
+Proof. exact segs_bbox_lin_contains. Qed.
+
+Theorem C08_path_bbox_agree : forall segs : list (PathSeg R),
+  Forall seg_lead_ok segs -> segs_bounding_box segs = segs_bounding_box_lin segs.
+Proof. exact segs_bbox_eq_lin. Qed.
+
+(** and is tight: each side is touched by one of the segments *)
+Theorem C08_path_bbox_tight : forall segs : list (PathSeg R), segs <> [] ->
+  segs_touch_all_sides segs (segs_bounding_box segs) /\
+  segs_touch_all_sides segs (segs_bounding_box_lin segs).
+Proof.
+  exact (fun segs Hne => conj (segs_touch (@seg_bounding_box R RS) segs seg_bbox_tight Hne)
+                              (segs_touch (@seg_bounding_box_lin R RS) segs seg_bbox_lin_tight Hne)).
+Qed.
+
+(** [BezPath::control_box] contains every element point, every control point of every segment of
+    the path, and — when the path has a segment — its bounding box.  (A path without segments,
+    e.g. a lone MoveTo, has the zero rectangle as bounding box by convention; see the Example.) *)
+Theorem C08_control_box_contains_points : forall (els : list (PathEl R)) (p : Point R),
+  In p (path_points els) -> rect_has (control_box els) p.
+Proof. exact control_box_has. Qed.
+
+Theorem C08_control_box_contains_bbox : forall (els : list (PathEl R)) (segs : list (PathSeg R)),
+  segments els = Some segs -> segs <> [] ->
+  rect_within (segs_bounding_box segs) (control_box els).
+Proof. exact control_box_contains_bbox. Qed.
+
+(** ** Non-vacuity *)
+
+(** x' = 48 (t - 1/4)(t - 3/4); y' = 12 (t - 1/2): leading coefficient zero in y *)
+Definition ex_cubic : CubicBez R :=
+  mkCubic (mkPoint 0 0) (mkPoint 3 (-2)) (mkPoint (-2) (-2)) (mkPoint 1 0).
+
+Example C08_ex_cubic_extrema :
+  In (1 / 4) (cubic_extrema_lin ex_cubic) /\ In (1 / 2) (cubic_extrema_lin ex_cubic) /\
+  In (3 / 4) (cubic_extrema_lin ex_cubic).
+Proof.
+  pose proof (C08_cubic_extrema_spec ex_cubic) as Hs.
+  assert (Hx : not_identically_zero (seg_vx (SegCubic ex_cubic))).
+  { exists 0. destruct (cubic_vx 0 0 3 (-2) (-2) (-2) 1 0 0) as [E _]. cbv zeta in E.
+    unfold ex_cubic. rewrite E. unfold poly2. rewrite oc_a_real, oc_b_real. lra. }
+  assert (Hy : not_identically_zero (seg_vy (SegCubic ex_cubic))).
+  { exists 0. destruct (cubic_vx 0 0 3 (-2) (-2) (-2) 1 0 0) as [_ E]. cbv zeta in E.
+    unfold ex_cubic. rewrite E. unfold poly2. rewrite oc_a_real, oc_b_real. lra. }
+  repeat split.
+  - apply (ex_complete_zeros _ _ Hs); [lra|]. left. split; [|exact Hx].
+    destruct (cubic_vx 0 0 3 (-2) (-2) (-2) 1 0 (1 / 4)) as [E _]. cbv zeta in E.
+    unfold ex_cubic. rewrite E. unfold poly2. rewrite oc_a_real, oc_b_real. lra.
+  - apply (ex_complete_zeros _ _ Hs); [lra|]. right. split; [|exact Hy].
+    destruct (cubic_vx 0 0 3 (-2) (-2) (-2) 1 0 (1 / 2)) as [_ E]. cbv zeta in E.
+    unfold ex_cubic. rewrite E. unfold poly2. rewrite oc_a_real, oc_b_real. lra.
+  - apply (ex_complete_zeros _ _ Hs); [lra|]. left. split; [|exact Hx].
+    destruct (cubic_vx 0 0 3 (-2) (-2) (-2) 1 0 (3 / 4)) as [E _]. cbv zeta in E.
+    unfold ex_cubic. rewrite E. unfold poly2. rewrite oc_a_real, oc_b_real. lra.
+Qed.
+
+(** x' of [ex_cubic] changes sign at 1/4 in the sense of [sign_change] *)
+Example C08_ex_sign_change : sign_change (seg_vx (SegCubic ex_cubic)) (1 / 4).
+Proof.
+  intros eps Heps.
+  assert (E : forall t, seg_vx (SegCubic ex_cubic) t = 48 * ((t - 1 / 4) * (t - 3 / 4))).
+  { intro t. destruct (cubic_vx 0 0 3 (-2) (-2) (-2) 1 0 t) as [E _]. cbv zeta in E.
+    unfold ex_cubic. rewrite E. unfold poly2. rewrite oc_a_real, oc_b_real. field. }
+  set (d := Rmin eps (1 / 4) / 2).
+  assert (Hd : 0 < d /\ d < eps /\ d <= 1 / 8).
+  { unfold d. pose proof (Rmin_l eps (1 / 4)). pose proof (Rmin_r eps (1 / 4)).
+    assert (0 < Rmin eps (1 / 4)) by (apply Rmin_glb_lt; lra). lra. }
+  exists (1 / 4 + d), (1 / 4 - d). rewrite !E.
+  repeat split; try lra; nra.
+Qed.
+
+(** the guard fails for [ex_cubic] (its y velocity is linear), and holds for a generic cubic *)
+Example C08_ex_guard_fails : ~ cubic_lead_ok ex_cubic.
+Proof.
+  intros [_ [H|H]]; simpl in H; rewrite ?oc_a_real, ?oc_b_real in H; lra.
+Qed.
+
+Definition ex_cubic2 : CubicBez R :=
+  mkCubic (mkPoint 0 0) (mkPoint 3 1) (mkPoint (-2) (-1)) (mkPoint 1 0).
+
+Example C08_ex_guard_holds : cubic_lead_ok ex_cubic2.
+Proof.
+  unfold cubic_lead_ok, lead_ok, ex_cubic2. cbv [c0 c1 c2 c3 px py]. rewrite !oc_a_real.
+  split; left; lra.
+Qed.
+
+(** why the [_lin] variant is needed at the real instance: the literal model run over the reals
+    (where 1/0 = 0 is finite) does not reach the linear block and misses the extremum of y *)
+Example C08_real_instance_artifact : ~ In (1 / 2) (cubic_extrema ex_cubic).
+Proof.
+  unfold ex_cubic. rewrite cubic_extrema_unfold. intro Hin.
+  apply (proj1 (sort_asc_In _ _)) in Hin. apply in_app_or in Hin. destruct Hin as [Hin|Hin].
+  - apply one_coord_sound in Hin. destruct Hin as [_ Hg]. unfold poly2 in Hg.
+    rewrite oc_a_real, oc_b_real in Hg. lra.
+  - rewrite one_coord_lead0 in Hin by (rewrite oc_a_real; ring). destruct Hin.
+Qed.
+
+(** "increasing order" is weak: when x' and y' vanish at the same parameter it is reported twice
+    (and [extrema_ranges] then has an empty range), so [StronglySorted Rle] is the right strength *)
+Example C08_ex_duplicate_extrema :
+  exists t, quad_extrema (mkQuad (mkPoint 0 0) (mkPoint 1 1) (mkPoint 0 0)) = [t; t] /\ t = 1 / 2.
+Proof.
+  exists (1 / 2). split; [|reflexivity].
+  rewrite quad_extrema_unfold. unfold quad_one_coord.
+  destruct (Reqb_spec (0 - 1 - (1 - 0)) 0) as [H|_]; [exfalso; lra|]. cbn [negb].
+  replace (- (1 - 0) / (0 - 1 - (1 - 0))) with (1 / 2) by (field; lra).
+  destruct (in_open01 (1 / 2)) eqn:E.
+  - unfold quad_merge. destruct (Rltb_spec (1 / 2) (1 / 2)); [exfalso; lra|reflexivity].
+  - exfalso. assert (H : in_open01 (1 / 2) = true) by (apply in_open01_true; lra). congruence.
+Qed.
+
+(** a path with segments, for the control-box theorem; and the convention for a lone MoveTo *)
+Example C08_ex_path_segments :
+  segments [MoveTo (mkPoint 0 0); CurveTo (mkPoint 3 (-2)) (mkPoint (-2) (-2)) (mkPoint 1 0)]
+  = Some [SegCubic ex_cubic].
+Proof. reflexivity. Qed.
+
+Example C08_lone_moveto_convention :
+  let els := [MoveTo (mkPoint 5 5)] in
+  segments els = Some [] /\ path_bounding_box els = Some rect_zero /\
+  control_box els = mkRect 5 5 5 5.
+Proof.
+  cbv zeta. split; [reflexivity|]. split; [reflexivity|].
+  unfold control_box. simpl. unfold rect_from_points, rect_abs. simpl.
+  rewrite Rmin_left, Rmax_left by lra. reflexivity.
+Qed.
